@@ -25,6 +25,7 @@ import (
 	"testing/synctest"
 	"time"
 
+	"github.com/cilium/ebpf"
 	"github.com/daeuniverse/dae/common/consts"
 	"github.com/daeuniverse/dae/component/dns"
 	dnsmessage "github.com/miekg/dns"
@@ -142,6 +143,7 @@ type c10Stack struct {
 	classes map[string]bool
 	nt      bool
 	prev    map[string]c10Owner
+	real    *ebpf.Map
 }
 
 func (s *c10Stack) key(nameIdx int, qtype uint16, scope c10Scope) (base, key string) {
@@ -190,6 +192,16 @@ func (s *c10Stack) check() {
 	if d := c10Compare(s.shadow.snapshot(), owners); d != "" {
 		s.t.Fatalf("domain routing table does not mirror the live DNS cache after %d steps\nhistory: %v\nlive cache entries:\n%s%s",
 			len(s.hist), s.hist, c10OwnersString(owners), d)
+	}
+	if s.real != nil {
+		real, err := c10DumpReal(s.real)
+		if err != nil {
+			s.t.Fatalf("harness: dump of the real map: %v", err)
+		}
+		if d := c10Compare(real, owners); d != "" {
+			s.t.Fatalf("the kernel domain routing map does not mirror the live DNS cache after %d steps\nhistory: %v\nlive cache entries:\n%s%s",
+				len(s.hist), s.hist, c10OwnersString(owners), d)
+		}
 	}
 	partial, removed := c10Shrank(s.prev, owners)
 	if partial {
@@ -333,13 +345,17 @@ func (s *c10Stack) coords(key string) (nameIdx int, qtype uint16, scope c10Scope
 // c10NewPlane is the ControlPlane literal the production option is taken from:
 // a core whose bpfObjects has a nil DomainRoutingMap, the matcher stand-in, and a
 // fixed_domain_ttl entry.
-func c10NewPlane(ctx context.Context, table map[string]bpfDomainRouting, presetTracker bool) *ControlPlane {
+func c10NewPlane(ctx context.Context, table map[string]bpfDomainRouting, presetTracker bool, real ...*ebpf.Map) *ControlPlane {
 	log := c10Log()
 	core := &controlPlaneCore{log: log}
 	if presetTracker {
 		core.domainRouting = newDomainRoutingTracker()
 	}
-	core.bpf.Store(&bpfObjects{}) // DomainRoutingMap == nil
+	if len(real) > 0 && real[0] != nil {
+		core.bpf.Store(&bpfObjects{bpfMaps: bpfMaps{DomainRoutingMap: real[0]}})
+	} else {
+		core.bpf.Store(&bpfObjects{}) // DomainRoutingMap == nil
+	}
 	plane := &ControlPlane{log: log, core: core, ctx: ctx}
 	plane.routingMatcher = &RoutingMatcher{domainMatcher: &c10Matcher{table: table}}
 	plane.dnsFixedDomainTtl = map[string]int{"fixed.example": 7}
@@ -373,7 +389,17 @@ func c10StackCase(t *rapid.T) {
 
 	ctx, cancel := context.WithCancel(context.Background())
 	defer cancel()
-	plane := c10NewPlane(ctx, s.table, presetTracker)
+	if s.real = c10TryRealMap(unit); s.real != nil {
+		defer s.real.Close()
+		if rapid.Bool().Draw(t, "per_element_fallback") {
+			c10ForceBatchMode(true)
+			s.classes["real_map_per_element_fallback"] = true
+		} else {
+			c10ForceBatchMode(false)
+			s.classes["real_map_kernel_batch_api"] = true
+		}
+	}
+	plane := c10NewPlane(ctx, s.table, presetTracker, s.real)
 
 	// exactly what NewControlPlane does with the option (control_plane.go:775-780).
 	option := plane.dnsControllerOption()
